@@ -27,6 +27,8 @@ m = {
          "serves_properties": [c for c in checks if checks[c].get("engine", "E1-sim") == "E1-sim"]},
         {"name": "E2-stress", "path": "harness/fam_c15.go", "kind_free_text": "free-running stress outside the bubble with real parallelism, built with -race, over the in-memory carrier (canaries) and real grpc-go on loopback TCP; jitter at every yield point; race log de-duplicated by the orchestrator",
          "serves_properties": [c for c in checks if checks[c].get("engine") == "E2-stress"]},
+        {"name": "E2-freerun", "path": "harness/fam_parkexplore.go", "kind_free_text": "free-running (real time, no bubble, no race detector) single-delay exploration: one goroutine is delayed for 3 ms at the k-th hit of one yield point (every point x 8 hits) while event-driven scenarios (clean, cancel, deadline, close, graceful shutdown, refusal) run at full speed; same tap + API-log monitors; 'stuck' = 150 consecutive polls without any logged event",
+         "serves_properties": ["C01", "C03", "C04", "C05", "C07", "C08", "C09", "C10", "C13", "C14", "C15"]},
         {"name": "E3-fccore", "path": "harness/fam_c05.go", "kind_free_text": "the library's private flow-control sender/receiver pair in isolation (verif constructors), every atomic-level step parked for PRNG virtual durations, conservation monitor + progress oracle",
          "serves_properties": ["C05"]},
         {"name": "E4-rawpeer", "path": "harness/rawpeer.go, harness/fam_c09.go, harness/fam_c09b.go", "kind_free_text": "raw tunnel client / raw tunnel server speaking the protocol frame by frame to the real endpoint; conversation grammar, deviation catalogue, sequential reference classifier",
